@@ -479,7 +479,7 @@ func main() {
 	}
 	probeEvery := 8
 	if f.Tier == "thorough" {
-		probeEvery = 2
+		probeEvery = 16
 	}
 	var replays, okc, steps int64
 	var wg sync.WaitGroup
